@@ -94,6 +94,8 @@ class SWorld:
         self.outs: list[int] = []
         self.step_lens: list[int] = []
         self.fresh: set[int] = set()
+        self.public_handles: list[int] = []
+        self.public_scopes: list[int] = []
         self.log: list = []              # readable history for monitors: (op tuple, result tuple, snapshot dict)
         self._expect_child: SPuppet | None = None
         orig_create_task = self.loop.create_task
@@ -338,6 +340,7 @@ class SWorld:
         async def newscope(p):
             anyio.CancelScope(deadline=(inf if b < 0 else float(b)), shield=bool(d))
             w.fresh.add(len(w.scopes))
+            w.public_scopes.append(len(w.scopes))
             return len(w.scopes)
 
         async def enter(p):
@@ -360,6 +363,7 @@ class SWorld:
             cm = anyio.fail_at(None if b < 0 else float(b), shield=bool(d))
             cm.__enter__()
             p.failat_cms[len(w.scopes)] = cm
+            w.public_scopes.append(len(w.scopes))
             return len(w.scopes)
 
         async def cancel(p):
@@ -373,6 +377,7 @@ class SWorld:
 
         async def gnew(p):
             w.groups.append(anyio.create_task_group())
+            w.public_scopes.append(len(w.scopes))      # tg.cancel_scope is public
             return len(w.groups)
 
         async def genter(p):
@@ -397,6 +402,7 @@ class SWorld:
                 if w._expect_child is child:      # refused: no task was created
                     w._expect_child = None
                     coro.close()
+            w.public_handles.append(child.tid)   # create_task() hands the TaskHandle to the program
             return child.tid
 
         async def start(p):
